@@ -43,7 +43,7 @@ def judge (fam payload impl : String) : Verdict :=
   | "kfl.api" => Kfl.Macro.judgeApi payload impl
   | "kfl.redactf" => Kfl.Macro.judgeRedactF payload impl
   | "kfl.shared" => Kfl.Macro.judgeShared payload impl
-  | "kfl.redactxml" => Kfl.Macro.judgeRedactXml payload impl
+  | "kfl.redactxml" => Kfl.Driver.judgeRedactXml payload impl
   | "sched.emit" => Sched.judgeEmit payload impl
   | "sched.excl" => Sched.judgeExcl payload impl
   | "sched.indep" => Sched.judgeIndep payload impl
